@@ -185,7 +185,7 @@ Proof.
   change (exec s (a :: t)) with (exec (exec1 s a) t) in *.
   assert (Hc1 : claims (exec1 s a) < two64) by (eapply N.le_lt_trans; [apply claims_mono|exact Hc]).
   assert (Hr1 : length (returned (exec1 s a)) = length (returned s)).
-  { pose proof (returned_mono1 s a). pose proof (returned_mono (exec1 s a) t). unfold bucket in *. lia. }
+  { apply Nat.le_antisymm; [rewrite <- Hret; apply returned_mono|apply returned_mono1]. }
   assert (IH' : count_p p t <= psi (exec1 s a) p).
   { apply IH; auto; [rewrite size_exec1; auto|apply step_inv; auto|apply sidx_step; auto|congruence]. }
   destruct Ha as [->| ->]; cbn [count_p].
@@ -206,10 +206,14 @@ Lemma solo_bound n ps sched0 p sched : (0 < n)%nat ->
   length (returned s') = length (returned s) ->
   count_p p sched <= 3 * N.of_nat n + 5.
 Proof.
-  intros Hn s Hf s' Hc Hd Hret.
+  intros Hn. cbv zeta. intros Hf Hc Hd Hret.
+  set (s := run n ps sched0) in *.
   assert (Hsz : size s = N.of_nat n) by (unfold s, run; rewrite size_exec, size_init; auto).
   assert (Hcs : claims s < two64) by (eapply N.le_lt_trans; [apply claims_mono|exact Hc]).
-  pose proof (solo_from ps s p sched ltac:(lia) (run_inv _ _ _ Hcs)
-                (sidx_exec _ _ ltac:(rewrite size_init; lia) (sidx_init n ps)) Hf Hc Hd Hret) as H.
-  pose proof (psi_bound s p). lia.
+  assert (Hpos : 0 < size s) by (rewrite Hsz; lia).
+  assert (Hinv : Inv ps s) by (apply run_inv; exact Hcs).
+  assert (Hsi : Sidx s).
+  { unfold s, run. apply sidx_exec; [rewrite size_init; lia|apply sidx_init]. }
+  pose proof (solo_from ps s p sched Hpos Hinv Hsi Hf Hc Hd Hret) as H.
+  pose proof (psi_bound s p) as Hb. rewrite Hsz in Hb. clearbody s. lia.
 Qed.
